@@ -8,14 +8,14 @@ VERIF = os.path.dirname(os.path.dirname(os.path.abspath(__file__)))
 # property -> (technique, level text, level note); only ACCEPTED checks are listed in CLAIMED
 T = {
  "C01": ("property-based testing (Hypothesis): round-trip, homomorphism and differential relations against an independent long-double/scipy SE(3) oracle",
-         "Generated-input search over rotation vectors, twists and SE(3) elements with boundary mass (|w|->0, |w|->pi, exact half turns); ten clauses. Finds violations with shrunk replays; no proof of absence.",
+         "Generated-input search over rotation vectors, twists and SE(3) elements with boundary mass (|w|->0, every decade 1e-9..0.3, |w|->pi, exact half turns about coordinate, near-coordinate, small-integer-ratio and random axes, integer-typed axis-aligned rotations); ten clauses. Finds violations with shrunk replays; no proof of absence.",
          "Trusted: numpy/scipy (Rotation, expm), vf/oracle.py; tolerance policy DESIGN 1.3; one open known finding (generic log branch within 2e-5 of pi)."),
  "C02": ("differential property-based testing (Hypothesis) of each of the 47 shared functions against a vendored pinned copy of modern_robotics 1.1.1",
-         "Per-function differential clauses on generated chains, inertias, trajectories (same structure/shape, 1e-9 relative, port must not raise where the reference returns) plus IK soundness clauses measured with the independent oracle.",
+         "Per-function differential clauses on generated chains, inertias, trajectories (same structure/shape, 1e-9 relative, port must not raise where the reference returns) plus IK soundness clauses measured with the independent oracle (cold, warm and exact starts) and two iteration-budget clauses that place the tolerance so that the reference converges on exactly the 19th / 20th / 21st of at most 20 Newton updates.",
          "Trusted: vendored reference (vendor/modern_robotics_ref, unmodified algorithms), numpy; cases where the reference itself raises or returns non-finite values are outside 'valid arguments' (counted)."),
  "C03": ("model-based property testing: exhaustive enumeration of all operation sequences to length 3 over a value palette + Hypothesis random histories to length 12, against a reference pose model",
          "Every operation sequence up to the bound is executed against a reference (R,p) model maintained with the independent oracle; invariant checked after every step.",
-         "Trusted: vf/oracle.py; only float64 arrays are handed to setters; results landing within 2e-5 of a half turn are excluded and counted (C01 finding)."),
+         "Trusted: vf/oracle.py; float and whole-number integer-typed arrays are handed to constructors and setters; results landing within 2e-5 of a half turn are excluded and counted (C01 finding) unless an exact half turn (entries -1/0/1) was handed in as such."),
  "C04": ("property-based testing (Hypothesis): group laws and constructor-form agreement against own matrix algebra",
          "Generated triples of poses and redundant descriptions of one pose; each law a separate clause with shrinkable failures.",
          "Trusted: vf/oracle.py (quaternion/rpy/axis-angle conversions written independently of the library)."),
@@ -35,7 +35,7 @@ T = {
          "Generated platform geometries through all three constructors, bases, spins; in-workspace filter decided by the harness' own oracle.",
          "Trusted: vf/sps.py geometry model read from public getters at construction; vf/oracle.py."),
  "C10": ("stateful property-based testing (Hypothesis op-list histories <=25) with coherence invariants and an independent constraint oracle after every call",
-         "Random histories incl. out-of-workspace requests and every subset of validation switches; corrective actions detected through instance-level wrappers.",
+         "Random histories incl. out-of-workspace requests (far outside and a fraction of a millimetre outside) and every subset of validation switches; corrective actions detected through instance-level wrappers.",
          "Trusted: vf/sps.py model; per-call 60 s guard (returning normally is part of the property)."),
  "C11": ("property-based testing (Hypothesis): inverse Jacobian vs Richardson derivative of leg lengths; static-equilibrium sums from public getters",
          "Generated geometries/poses with cond <= 1e4, twists, wrenches, masses.",
@@ -62,7 +62,7 @@ T = {
          "One clause per helper relation; planes/frames away from the origin and rotated.",
          "Trusted: vf/oracle.py."),
  "C19": ("explicit-state exhaustive exploration of all operation sequences to depth 5 against a reference model + Hypothesis op-list histories to depth 60 with injected receive faults; real UDP loopback clause",
-         "Every sequence over the concrete alphabet up to the bound is compared with the model after every operation.",
+         "Every sequence over the concrete alphabet up to the bound is compared with the model after every operation; on real sockets arrival is confirmed on the endpoint's socket before receipt is demanded; host-name addresses, buffers of 16/64/1024 bytes, exact-fit and over-long messages.",
          "Trusted: in-memory endpoint doubles implementing the CommsObject interface; loopback UDP in the sandbox."),
  "C20": ("property-based testing (Hypothesis recursive strategies) with a parse-back oracle; optional coverage-guided fuzzing (atheris) of the same predicate",
          "Generated scalars/strings/nested containers/transforms/wrenches/arrays 0-5 D incl. non-finite; rendered numbers parsed back and compared with round(x, nd).",
